@@ -12,12 +12,40 @@ ROUND = []
 _TOK = re.compile(r"\x02(\d+)\x03")
 
 
+OVERFLOW = dict(on=False, n=0)      # opt-in field-overflow model, see overflow_model()
+
+
+def overflow_model(on=True):
+    """opt-in; call at the start of EVERY path (it restarts the per-path count of formatted fields).
+    When on, at most ONE fixed-point field '{:w.pf}' per path may fill or exceed its width: at the k-th such format call the explorer forks on
+    (ovf_field == k  and  x >= 10^(w-p-2) or x <= -10^(w-p-3))  - the magnitudes at which the rendering of x has no leading blank - and on that side the
+    token is returned WITHOUT left padding, so a writer that relies on the field width to separate columns produces run-together columns that the
+    reader cannot split.  N fields give N+1 paths.  Integer fields of concrete values are rendered by Python itself and are not modelled."""
+    OVERFLOW.update(on=on, n=0)
+
+
+def _overflows(x, spec):
+    from .core import Ctx, SymB
+    mf = re.fullmatch(r"\s*[<>^]?[+\- ]?(\d+)\.(\d+)[fF]", spec or "")
+    if not mf or Ctx.cur is None or not x.n.im().iszero():
+        return False
+    i = OVERFLOW["n"]
+    OVERFLOW["n"] += 1
+    w, p = int(mf.group(1)), int(mf.group(2))
+    hi, lo = Fr(10) ** (w - p - 2), -Fr(10) ** (w - p - 3)
+    xv = x.zreal()
+    q = lambda f: z3.Q(f.numerator, f.denominator)
+    return bool(SymB(z3.And(zvar("ovf_field") == i, z3.Or(xv >= q(hi), xv <= q(lo))), atoms=x.atoms()))
+
+
 def format_sym(x, spec):
     k = len(TOKENS)
     TOKENS[k] = (x, spec)
     tok = f"\x02{k}\x03"
     m = re.match(r"\s*[<>^]?[+\- ]?(\d+)", spec or "")
     w = int(m.group(1)) if m else 0
+    if OVERFLOW["on"] and _overflows(x, spec):
+        return tok
     return tok.rjust(w)
 
 
